@@ -181,14 +181,17 @@ def root_contract(ctx, i_star, j_star):
   return contract, RF, EF
 
 
-def mk_p3(N, D, grouping=None, reuse=False):
+def mk_p3(N, D, grouping=None, reuse=False, metrics=True):
   """grouping: number of statistics per parameter state (default: one each); sum(grouping) = N.
   reuse: reuse_preconditioner=True - the root routine of statistic k is handed the previous preconditioner OF STATISTIC k."""
   grouping = tuple(grouping) if grouping else (1,) * N
   assert sum(grouping) == N
 
   def t(ctx, it):
-    m, env = constructor_env(it, **(dict(reuse_preconditioner=True) if reuse else {}))
+    kw_ = dict(reuse_preconditioner=True) if reuse else {}
+    if not metrics:
+      kw_["generate_training_metrics"] = False   # the errors that gate the acceptance are still exchanged between the devices
+    m, env = constructor_env(it, **kw_)
     GEN["metrics_cls"] = m.TrainingMetrics
     # every statistic has its OWN symbolic size s_k <= max_size (so its padding_start differs from its neighbours')
     sz = spec.fresh_int("max_size", lo=1)
@@ -233,7 +236,7 @@ def mk_p3(N, D, grouping=None, reuse=False):
     states, slot_of, off = [], {}, 0
     for gi, gsz in enumerate(grouping):
       states.append(PS(None, [statistics[off + q] for q in range(gsz)], [prev[off + q] for q in range(gsz)], None, None, None,
-                       m.init_training_metrics(gsz, True)))
+                       m.init_training_metrics(gsz, metrics)))
       for q in range(gsz):
         slot_of[off + q] = (gi, q)
       off += gsz
@@ -337,6 +340,8 @@ def tasks(tier):
     ts.append(Task(f"pmap_compute_preconditioners[N={n},D={d}]", mk_p3(n, d)))
   for n, d in ((2, 2), (3, 2), (4, 3)):
     ts.append(Task(f"pmap_compute_preconditioners[N={n},D={d},reuse_preconditioner]", mk_p3(n, d, None, True)))
+  for n, d in ((2, 2), (3, 2), (4, 3)):
+    ts.append(Task(f"pmap_compute_preconditioners[N={n},D={d},generate_training_metrics=False]", mk_p3(n, d, None, False, False)))
   for n, d, gr in ((3, 2, (3,)), (3, 2, (2, 1)), (4, 3, (1, 3))):
     ts.append(Task(f"pmap_compute_preconditioners[N={n},D={d},statistics per parameter {gr}]", mk_p3(n, d, gr)))
   return ts
